@@ -308,8 +308,12 @@ func actionOnEdge(g *FG, edges []Edge, action []bool) bool {
 			continue
 		}
 		switch in.(type) {
-		case *ssa.Next, *ssa.Return:
+		case *ssa.Next:
 			return false
+		case *ssa.Return:
+			if in.Parent() == g.fn {
+				return false
+			}
 		}
 	}
 	// index-based loops: the back edge goes through the phi of the loop counter; treat any If on a "<len(" bound as end of iteration
